@@ -24,6 +24,7 @@ func propC15(r *Report, tier string) {
 	ruleKVGetCopyKeepsEmptyValues(r, "K12-get-copy-keeps-empty-values")
 	ruleOneKVBatchPerIndexBatch(r, "K12-one-kv-batch-per-index-batch")
 	ruleKVGetAbsenceIsNil(r, "K12-kv-get-absence-is-nil")
+	ruleSeekAlwaysRepositions(r, "K12-seek-always-repositions")
 	ruleCarryLoopCoversIndexZero(r, "K8-carry-loop-covers-index-zero", func(rel string) bool { return strings.HasPrefix(rel, "index/upsidedown") }, 3)
 	ruleErrorsLookedAt(r, "Kerr-errors-looked-at", func(rel string) bool { return strings.HasPrefix(rel, storeBase) || rel == "index/upsidedown" }, errAllowStores)
 	ruleSuccessorKeepsIncrementedByte(r, "K8-prefix-successor", func(rel string) bool { return strings.HasPrefix(rel, storeBase) }, 1)
